@@ -64,3 +64,76 @@ def _(c):
     c.ens("clamped", "forall(rows(result), self.D, lambda i, j: self.lb[0][j] <= result[i][j] and result[i][j] <= self.ub[0][j])",
           top=True, props=["C01", "C11"])
     c.ens("shape", "rows(result) == rows(input) and cols(result) == self.D")
+
+
+@contract(VT + ".__create_hypercube_trans__", serves=["C11", "C01", "C08"], mode="ext")
+def _(c):
+    c.ints("self.D")
+    for nm in ("lb", "orig_lb"):
+        c.arr("self." + nm, 2, [1, "self.D"], ext="lo")
+    for nm in ("ub", "orig_ub"):
+        c.arr("self." + nm, 2, [1, "self.D"], ext="hi")
+    for nm in ("plb", "pub", "orig_plb", "orig_pub"):
+        c.arr("self." + nm, 2, [1, "self.D"])
+    c.arr("self.apply_log_t", 2, [1, "self.D"], ext=True)
+    c.arr("ghost.x1", 2, [1, "self.D"])
+    c.arr("ghost.x2", 2, [1, "self.D"])
+    c.req("D", "self.D >= 1")
+    RULE = ("(self.orig_lb[0][%s] > 0 and self.orig_ub[0][%s] > 0 and self.orig_plb[0][%s] > 0 and self.orig_pub[0][%s] > 0 and self.orig_pub[0][%s] / self.orig_plb[0][%s] >= 10)")
+    rule = lambda j: RULE % ((j,) * 6)
+    # BADS passes a flag vector that is NaN ("decide") or 0 ("never") per coordinate
+    c.req("flag_nan_or_zero", "forall(self.D, lambda j: isnan(self.apply_log_t[0][j]) or self.apply_log_t[0][j] == 0)")
+    c.arr("check_idx_log_t", 2, [None, 1])
+    c.loop(0, invariants={
+        "bounds_untouched": "same(self.lb, self.orig_lb) and same(self.ub, self.orig_ub) and same(self.plb, self.orig_plb) and same(self.pub, self.orig_pub)",
+        "decided_flags_kept": "forall(self.D, lambda j: implies(not isnan(old(self.apply_log_t)[0][j]), self.apply_log_t[0][j] == 0))",
+        "processed_follow_rule": "forall(loop_index, lambda k: self.apply_log_t[0][check_idx_log_t[k][0]] == ite(" + rule("check_idx_log_t[k][0]") + ", 1, 0))",
+        "untouched_elsewhere": "forall(self.D, lambda j: implies(isnan(old(self.apply_log_t)[0][j]) and forall(loop_index, lambda k: check_idx_log_t[k][0] != j), isnan(self.apply_log_t[0][j])))",
+    })
+    c.lemma_at("if not (np.all(self.lb <= self.plb)", {"order": "forall(self.D, lambda j: self.orig_lb[0][j] <= self.orig_plb[0][j] and self.orig_plb[0][j] < self.orig_pub[0][j] "
+               "and self.orig_pub[0][j] <= self.orig_ub[0][j])"}, props=["C11", "C01", "C08"])
+    c.lemma_at("self.apply_log_t = self.apply_log_t.astype(bool)", {
+        "flag_rule": "forall(self.D, lambda j: truthy(self.apply_log_t[0][j]) == (isnan(old(self.apply_log_t)[0][j]) and " + rule("j") + "))"}, props=["C11"])
+    c.lemma_at("apply_log_t_sum = np.sum(self.apply_log_t)", {
+        "sum_zero_no_log": "implies(apply_log_t_sum == 0, forall(self.D, lambda j: not truthy(self.apply_log_t[0][j])))",
+        "sum_D_all_log": "implies(apply_log_t_sum == self.D, forall(self.D, lambda j: truthy(self.apply_log_t[0][j])))"}, props=["C11"])
+    LOGX = "np.log(np.abs(ghost.x1) + (ghost.x1 == 0))[0][j]"
+    # statement contract on gamma: afterwards only these algebraic facts about it are used (keeps the later queries out of
+    # nonlinear arithmetic over the definitions of mu and gamma)
+    c.cut("gamma = 0.5 * (self.pub - self.plb)", "gamma", {"arrspec": (2, [1, "self.D"], "num", False)}, {
+        "gamma_positive": "forall(self.D, lambda j: gamma[0][j] > 0)",
+        "mono_exp": "forall(self.D, lambda j: implies(ghost.x1[0][j] < ghost.x2[0][j], np.exp(gamma * ghost.x1 + mu)[0][j] < np.exp(gamma * ghost.x2 + mu)[0][j]))",
+        "rt_log": "forall(self.D, lambda j: gamma[0][j] * ((" + LOGX + " - mu[0][j]) / gamma[0][j]) + mu[0][j] == " + LOGX + ")",
+        "unit_affine": "forall(self.D, lambda j: implies(not truthy(self.apply_log_t[0][j]), (self.orig_plb[0][j] - mu[0][j]) / gamma[0][j] == -1 and (self.orig_pub[0][j] - mu[0][j]) / gamma[0][j] == 1))",
+        "unit_log": "forall(self.D, lambda j: implies(truthy(self.apply_log_t[0][j]), (np.log(self.orig_plb)[0][j] - mu[0][j]) / gamma[0][j] == -1 and (np.log(self.orig_pub)[0][j] - mu[0][j]) / gamma[0][j] == 1))",
+        "rt_affine": "forall(self.D, lambda j: gamma[0][j] * ((ghost.x1[0][j] - mu[0][j]) / gamma[0][j]) + mu[0][j] == ghost.x1[0][j])",
+        "mono_log": "forall(self.D, lambda j: implies(truthy(self.apply_log_t[0][j]) and ghost.x1[0][j] > 0 and ghost.x1[0][j] < ghost.x2[0][j], "
+                    "np.log(np.abs(ghost.x1) + (ghost.x1 == 0))[0][j] < np.log(np.abs(ghost.x2) + (ghost.x2 == 0))[0][j]))",
+        "mono_affine": "forall(self.D, lambda j: implies(ghost.x1[0][j] < ghost.x2[0][j], (ghost.x1[0][j] - mu[0][j]) / gamma[0][j] < (ghost.x2[0][j] - mu[0][j]) / gamma[0][j]))",
+        "mono_logz": "forall(self.D, lambda j: implies(truthy(self.apply_log_t[0][j]) and ghost.x1[0][j] > 0 and ghost.x1[0][j] < ghost.x2[0][j], "
+                     "(np.log(np.abs(ghost.x1) + (ghost.x1 == 0))[0][j] - mu[0][j]) / gamma[0][j] < (np.log(np.abs(ghost.x2) + (ghost.x2 == 0))[0][j] - mu[0][j]) / gamma[0][j]))",
+    }, props=["C11"])
+    c.ens("log_flag_exactly_when_positive_decade", "forall(self.D, lambda j: truthy(self.apply_log_t[0][j]) == (isnan(old(self.apply_log_t)[0][j]) and " + rule("j") + "))",
+          top=True, props=["C11"])
+    c.req("copies", "same(self.lb, self.orig_lb) and same(self.ub, self.orig_ub) and same(self.plb, self.orig_plb) and same(self.pub, self.orig_pub)")
+    c.may_raise("ValueError")
+    # the constructor's numeric self-test only decides whether ValueError is raised; no clause needs its value
+    c.opaque_stmt("tests[0] =", "tests[1] =", "tests[2] =", "tests[3] =")
+    # C08/C01: a normal return means the bounds are ordered
+    c.ens("order_checked", "forall(self.D, lambda j: self.orig_lb[0][j] <= self.orig_plb[0][j] and self.orig_plb[0][j] < self.orig_pub[0][j] and self.orig_pub[0][j] <= self.orig_ub[0][j])",
+          top=True, props=["C11", "C01", "C08"])
+    # C11 lemmas over the real lambda bodies (result[4] = g, result[5] = ginv), for arbitrary points x1, x2
+    c.ens("transformed_hard_bounds_are_numbers", "forall(self.D, lambda j: not isnan(result[0][0][j]) and not isnan(result[1][0][j]))", top=True, props=["C11", "C01"])
+    c.ens("plausible_bounds_map_to_unit", "forall(self.D, lambda j: result[2][0][j] == -1 and result[3][0][j] == 1)", top=True, props=["C11"])
+    G1, G2 = "result[4](ghost.x1)[0][j]", "result[4](ghost.x2)[0][j]"
+    c.ens("forward_increasing_affine", "forall(self.D, lambda j: implies(not truthy(self.apply_log_t[0][j]) and ghost.x1[0][j] < ghost.x2[0][j], " + G1 + " < " + G2 + "))", top=True, props=["C11"])
+    c.ens("forward_increasing_log", "forall(self.D, lambda j: implies(truthy(self.apply_log_t[0][j]) and ghost.x1[0][j] > 0 and ghost.x1[0][j] < ghost.x2[0][j], " + G1 + " < " + G2 + "))", top=True, props=["C11"])
+    FL_ = "truthy(self.apply_log_t[0][j])"
+    GI1, GI2 = "result[5](ghost.x1)[0][j]", "result[5](ghost.x2)[0][j]"
+    c.ens("inverse_increasing_affine", "forall(self.D, lambda j: implies(not " + FL_ + " and ghost.x1[0][j] < ghost.x2[0][j], " + GI1 + " < " + GI2 + "))", top=True, props=["C11"])
+    c.ens("inverse_nondecreasing_log", "forall(self.D, lambda j: implies(" + FL_ + " and ghost.x1[0][j] < ghost.x2[0][j], " + GI1 + " <= " + GI2 +
+          " and implies(" + GI2 + " < fmax(), " + GI1 + " < " + GI2 + ")))", top=True, props=["C11"])
+    RT = "result[5](result[4](ghost.x1))[0][j] == ghost.x1[0][j]"
+    c.ens("round_trip_affine", "forall(self.D, lambda j: implies(not " + FL_ + ", " + RT + "))", top=True, props=["C11"])
+    # round trip for log coordinates (exp(log x) through the affine map) is left to the bounded sampling check: the chained
+    # nonlinear + uninterpreted exp/log query does not discharge reliably within the budget
